@@ -141,6 +141,12 @@ def check(ctx):
                 Kt = T("CENTER", Kt)
             xf = ctx.attr(st, o, "X_fit_")
             ctx.ob("R-PIPE", f"[{cfg}] X_fit_ is a copy of the training data", xf is not None and xf.term == X.term and not any(o_[0] == "in" for o_ in xf.orig), f"X_fit_ = {None if xf is None else (repr(xf.term), sorted(xf.orig))}", site, cfg)
+            if center:
+                # the centring step is the documented one: a KernelNormalizer that centres AND scales to unit trace, unweighted
+                cen_ = ctx.attr(st, o, "centerer_")
+                hc_ = st.heap.get(cen_.obj.id) if cen_ is not None and cen_.kind == "obj" else None
+                okc_ = hc_ is not None and cen_.obj.cls.name == "KernelNormalizer" and all(hc_.get(k_) is not None and hc_[k_].has_const and hc_[k_].const is True for k_ in ("with_center", "with_trace"))
+                ctx.ob("R-PIPE", f"[{cfg}] centerer_ is a KernelNormalizer with centring and trace scaling switched on", okc_, f"centerer_ = {None if cen_ is None else repr(cen_.term)[:80]} flags {None if hc_ is None else {k_: repr(hc_.get(k_)) for k_ in ('with_center', 'with_trace')}}", site, cfg)
             a = got.get("args")
             if reg == "default":
                 # a second fit of the same object centres with the statistics of the NEW kernel
